@@ -213,7 +213,17 @@ def run_penalty(rng, obs):
         vals = evaluate(specs, names, x)
     except (ZeroDivisionError, OverflowError, ValueError):
         obs.skip('text undefined at x'); return
-    conds = generate_conditions(text, variables=variables, nvars=n)
+    tlines = text.splitlines()
+    if len(tlines) >= 2 and rng.random() < 0.35:
+        # the documented tuple-of-texts form: conditions come back per text, generate_penalty takes them as they are
+        cut = sorted(rng.sample(range(1, len(tlines)), rng.randint(1, len(tlines) - 1)))
+        groups = tuple('\n'.join(tlines[a:b]) for a, b in zip([0] + cut, cut + [len(tlines)]))
+        conds = generate_conditions(groups, variables=variables, nvars=n)
+        obs.desc['groups'] = list(groups); obs.event('tuple_of_texts')
+        if ptype is not None:
+            ptype = None; obs.desc['ptype'] = None        # (explicit penalty types are given per condition of ONE text)
+    else:
+        conds = generate_conditions(text, variables=variables, nvars=n)
     kw = {}
     if k is not None: kw['k'] = k
     if h is not None: kw['h'] = h
